@@ -1283,6 +1283,14 @@ def conv_loop_inv(lc):
     return base if cc is None else z3.And(base, cc)
 
 
+def end_of_iteration(lc):
+    """the invariant is being evaluated at the end of the body (index `i + 1`, i the fresh index constant of the loop rule), not at
+    loop entry (0), at the start of the body (i) or after the loop (the length term)"""
+    t = lc.i
+    return z3.is_add(t) and t.num_args() == 2 and z3.is_int_value(t.arg(1)) and t.arg(1).as_long() == 1 and \
+        z3.is_const(t.arg(0)) and t.arg(0).decl().kind() == z3.Z3_OP_UNINTERPRETED
+
+
 def content_conj(lc):
     """round 7 (ORDER / ONCE, deductive): a loop of the converter that iterates over an Element itself (the default branch of the
     worker, the top-level loop of omml_to_latex).  History ghost of THIS loop execution
@@ -1309,7 +1317,7 @@ def content_conj(lc):
         lc.st.ghost["content_loops"] = known + ((e, CH),)
     now, ent = cat_of(pairs[0][0]), cat_of(pairs[0][1])
     lc.st.assume(CH(e, z3.IntVal(0)) == sval(""))
-    if z3.is_add(lc.i):                                   # end of iteration i (lc.i is i + 1)
+    if end_of_iteration(lc):                                   # end of iteration i (lc.i is i + 1)
         i0 = z3.simplify(lc.i - 1)
         n_ent = len([x for x in lc.entry.ghost.get("rcalls", ()) if x[0] == PE])
         new = [x for x in lc.st.ghost.get("rcalls", ()) if x[0] == PE][n_ent:]
@@ -1355,7 +1363,7 @@ def items_conj(lc):
     if not any(x[2].eq(RS) for x in known):
         lc.st.ghost["item_loops"] = known + ((e, path, RS),)
     lc.st.assume(RS(e, z3.IntVal(0)) == z3.Empty(SS))
-    if z3.is_add(lc.i) and nested is not None:
+    if end_of_iteration(lc) and nested is not None:
         i0 = z3.simplify(lc.i - 1)
         item = it.elem(i0).t
         before = lc.entry.ghost.get("item_loops", ())
@@ -1364,7 +1372,7 @@ def items_conj(lc):
             return z3.BoolVal(False)
         row = SJOIN(sval(nested[1]), inner[0][2](item, NFINDALL(item, sval(Q(nested[0])))))
         lc.st.assume(RS(e, lc.i) == z3.Concat(RS(e, i0), z3.Unit(row)))
-    elif z3.is_add(lc.i):
+    elif end_of_iteration(lc):
         i0 = z3.simplify(lc.i - 1)
         if len(new) != 1:
             return z3.BoolVal(False)
